@@ -1301,8 +1301,10 @@ def ex_kotlin(ctx):
 
 # ------------------------------------------------------------------------------------------------
 # Scala
-#   header : [/** .. */] package a.b / package object c { ... } / package c { ... }   (closers are attributed; a closer without
-#            opener - package name without '.' - is reported under 'anomalies', not 'unparsed')
+#   header : [/** .. */] [package a.b /] package object c { ... } / package c { ... }   (the package clause only when the package
+#            name has a parent: under `--scala-package p` the file starts with `package object p {` or `package p {`, /repo fix 30;
+#            closers are attributed; a closer without opener - what a dotless name printed before the /repo fixes 17 / 30 - is
+#            reported under 'anomalies', not 'unparsed')
 #   alias  : type N[G] = T            (UByte UShort UInt ULong = ... are kind 'helper')
 #   struct : case class N[G] ( \tn: T[ = _| = None][,] )     | class N extends Serializable
 #   enum   : sealed trait N[G] { \tdef serialName: String } object N { \tcase object V extends P { \t\tval serialName: String = "w" \t}
